@@ -11,6 +11,7 @@ import (
 	"sync/atomic"
 
 	"github.com/openziti/storage/boltz"
+	"go.etcd.io/bbolt"
 	"verif/explore"
 	"verif/report"
 	"verif/vsync"
@@ -26,12 +27,41 @@ type c08World struct {
 	events []string // "store|style|type|id|state"
 	commit int64
 	txDone int64
+	// "after the commit": when an id-only listener runs, a fresh read transaction must already show the state the
+	// whole transaction leaves behind (the entity is present iff the reference model still has it; its name is final)
+	curDb     *boltz.DbImpl
+	afterTx   *kModel
+	tooEarly  []string
+	earlyMu   sync.Mutex
+	visChecks int64
 }
 
 func (w *c08World) rec(store, style string, t boltz.EntityEventType, id, state string) {
+	if strings.HasPrefix(style, "EntityIdListener") && w.curDb != nil && w.afterTx != nil && (store == "people" || store == "mgr" || store == "prof") {
+		atomic.AddInt64(&w.visChecks, 1)
+		wantP := w.afterTx.people[id]
+		_ = w.curDb.View(func(tx *bbolt.Tx) error {
+			e, found, err := w.k.people.FindById(tx, id)
+			switch {
+			case err != nil:
+				w.early(fmt.Sprintf("%s %s listener for %s: lookup failed: %v", store, style, id, err))
+			case found != (wantP != nil):
+				w.early(fmt.Sprintf("%s %s %s-listener for %s ran while a fresh read transaction sees present=%v; the committed transaction leaves present=%v", store, style, c08TypeName(t), id, found, wantP != nil))
+			case found && fmt.Sprint(e.F["name"]) != wantP.name:
+				w.early(fmt.Sprintf("%s %s %s-listener for %s ran while a fresh read transaction sees name=%v; the committed transaction leaves name=%s", store, style, c08TypeName(t), id, e.F["name"], wantP.name))
+			}
+			return nil
+		})
+	}
 	w.mu.Lock()
 	w.events = append(w.events, fmt.Sprintf("%s|%s|%s|%s|%s", store, style, c08TypeName(t), id, state))
 	w.mu.Unlock()
+}
+
+func (w *c08World) early(msg string) {
+	w.earlyMu.Lock()
+	w.tooEarly = append(w.tooEarly, msg)
+	w.earlyMu.Unlock()
 }
 
 func c08TypeName(t boltz.EntityEventType) string {
@@ -351,6 +381,7 @@ func c08State(rep *report.Report, w *c08World, ops []explore.Op, bodies [][]int,
 			w.mu.Unlock()
 			atomic.StoreInt64(&w.commit, 0)
 			atomic.StoreInt64(&w.txDone, 0)
+			w.curDb, w.afterTx, w.tooEarly = h.db, m, nil
 			fn := func(ctx boltz.MutateContext) error {
 				ctx.AddCommitAction(func() { atomic.AddInt64(&w.commit, 1) })
 				switch mode {
@@ -418,6 +449,13 @@ func c08State(rep *report.Report, w *c08World, ops []explore.Op, bodies [][]int,
 				rep.Outcome("undone:" + mode)
 			} else {
 				rep.Outcome("committed:" + mode)
+			}
+			w.earlyMu.Lock()
+			early := append([]string{}, w.tooEarly...)
+			w.earlyMu.Unlock()
+			rep.Count("after_commit_visibility_checks", atomic.SwapInt64(&w.visChecks, 0))
+			if committed && len(early) > 0 {
+				rep.Violation("C08|listener-before-commit|"+bodyName+"|"+mode, fmt.Sprintf("%s: a listener ran before its change was committed: %s", label, early[0]), replay)
 			}
 			g, e := filter(got), filter(expect)
 			if strings.Join(g, "\n") != strings.Join(e, "\n") {
